@@ -635,6 +635,9 @@ func (db *DB) Pos() (ltx.Pos, error) {
 	}
 
 	pos := dec.PostApplyPos()
+	if verifEnabled {
+		verifTrace("pos.recomputed", db.path, uint64(pos.TXID))
+	}
 	db.pos.value = &pos
 
 	return pos, nil
